@@ -665,6 +665,9 @@ type c05Scenario struct {
 	ExpectErr  string                                                       // must appear on stderr of the complete run
 	ExpectErrs []string                                                     // foreign-tmp scenarios: one refusal per blocked file
 	Blocked    map[string]string                                            // foreign-tmp scenarios: file -> kind of the entry planted at file.pkglint.tmp
+	LinkArgs   []string                                                     // command-line arguments that are symbolic links
+	LinkFile   string                                                       // the file of the package that is a symbolic link
+	Links      bool                                                         // the tree contains symbolic links as save targets / arguments: the link-aware model (Model/FsLinks.v) is the reference
 	Twin       string                                                       // stale-tmp: the same tree without the stale file; its complete run defines "new"
 	Expect     func(s *c05Scenario, prog []c05Action, stdout string) string // coverage floor; "" = fine
 }
@@ -744,7 +747,12 @@ func c05Build(name string, variant int, seed uint64, root string) *c05Scenario {
 	s := &c05Scenario{Name: name, Variant: variant, Seed: seed, Base: root, Args: []string{"-Wall", "-F", "cat/pkg"}}
 	// "<base>+<kind>": the base scenario in a tree that already has entries of that kind
 	// at <file>.pkglint.tmp for some of the files the run is going to fix
+	name, linkSpec, _ := strings.Cut(name, "@")
 	baseName, tmpKind, _ := strings.Cut(name, "+")
+	if linkSpec != "" {
+		s.Links = true
+		defer func() { s.Name = name + "@" + linkSpec }()
+	}
 	mkFixed := true
 	switch baseName {
 	case "single-mk":
@@ -809,6 +817,9 @@ func c05Build(name string, variant int, seed uint64, root string) *c05Scenario {
 	if tmpKind != "" {
 		c05PlantForeign(s, t, r, baseName, tmpKind, mkFixed)
 	}
+	if linkSpec != "" {
+		c05PlantLinks(s, t, r, linkSpec)
+	}
 	s.Old = c05ReadTree(root)
 	s.OldSnap = Snapshot(root)
 	return s
@@ -831,7 +842,18 @@ func c05Changed(s *c05Scenario, files ...string) string {
 // c05DirsLost's business).
 func c05ReadTree(root string) map[string]c05File {
 	m := map[string]c05File{}
-	filepath.Walk(root, func(p string, info fs.FileInfo, err error) error {
+	c05ReadInto(m, root, root)
+	// link scenarios: the directory next to the tree that link targets "outside the tree" live in
+	if out := filepath.Join(filepath.Dir(root), "outside"); root != "" {
+		if _, err := os.Lstat(out); err == nil {
+			c05ReadInto(m, root, out)
+		}
+	}
+	return m
+}
+
+func c05ReadInto(m map[string]c05File, root, dir string) {
+	filepath.Walk(dir, func(p string, info fs.FileInfo, err error) error {
 		if err != nil {
 			return nil
 		}
@@ -848,7 +870,6 @@ func c05ReadTree(root string) map[string]c05File {
 		}
 		return nil
 	})
-	return m
 }
 
 func c05KindLetter(f c05File) string {
@@ -886,6 +907,13 @@ func c05Fresh(ctx *Ctx, s *c05Scenario) string {
 	root := filepath.Join(d, "pkgsrc")
 	if err := CopyTree(s.Base, root); err != nil {
 		panic(err)
+	}
+	if out := filepath.Join(filepath.Dir(s.Base), "outside"); s.Links {
+		if _, err := os.Lstat(out); err == nil {
+			if err := CopyTree(out, filepath.Join(d, "outside")); err != nil {
+				panic(err)
+			}
+		}
 	}
 	return root
 }
@@ -1190,11 +1218,13 @@ func c05SpecBad(ctx *Ctx, s *c05Scenario, umask int, prog []c05Action, cur map[s
 // ---------- the check ----------
 
 type c05State struct {
-	ctx   *Ctx
-	res   *Result
-	umask int
-	mu    sync.Mutex
-	cross []c05Cross // cases for the extraction cross-check
+	ctx    *Ctx
+	res    *Result
+	umask  int
+	mu     sync.Mutex
+	cross  []c05Cross  // cases for the extraction cross-check
+	lcross []c05LCross // link-model cases for the same cross-check
+	elines []string    // ERROR lines of failed saves seen on stderr (for error_line)
 }
 
 func (st *c05State) evals(n, validated int) {
@@ -1210,6 +1240,16 @@ func (st *c05State) broken(why string) {
 		st.res.Broken = why
 	}
 	st.mu.Unlock()
+}
+
+// implViolation: an assertion of the harness about the IMPLEMENTATION failed, so the
+// correspondence cannot be established for this scenario: a Violation without a failing
+// input (exit 1), never a broken check (exit 2).
+func (st *c05State) implViolation(s *c05Scenario, key, assertion, what string) {
+	rep := st.replayMap(s, "plain", -1, "")
+	rep["broken"] = "correspondence: " + assertion
+	st.res.AddViolation(Violation{Key: key, FoundInput: false, Size: 1, Replay: rep,
+		What: fmt.Sprintf("scenario %s: %s: %s", s.Name, assertion, what)})
 }
 
 func (st *c05State) replayMap(s *c05Scenario, mode string, k int, errno string) map[string]any {
@@ -1237,18 +1277,32 @@ func (st *c05State) baseline(s *c05Scenario) (*c05Run, []c05Action, bool) {
 	if s.Twin != "" {
 		tw := RunPkglint(ctx, s.Twin, 30*time.Second, s.Args...)
 		if tw.Exit != plain.Exit && s.Blocked == nil { // a planted entry may draw diagnostics of its own
-			res.Broken = fmt.Sprintf("scenario %s: twin run exit=%d", s.Name, tw.Exit)
-			return nil, nil, false
+			// the refused save changes the exit status: TechErrorf does not count as an error
+			// (Model.FsProto.tech_error: no counter).  An assertion about the implementation:
+			// a Violation, never a broken check; the stream judge below decides about the input.
+			st.implViolation(s, "C05/correspondence/refused-save-exit-status", "the refused save does not change the exit status (Logger.TechErrorf is not counted)",
+				fmt.Sprintf("`pkglint %s` exits with %d, the same run without the entry at the temporary name with %d", strings.Join(s.Args, " "), plain.Exit, tw.Exit))
 		}
 		s.Final = c05ReadTree(s.Twin)
 	}
-	if plain.TimedOut || plain.Exit < 0 || plain.Exit > 1 {
-		res.Broken = fmt.Sprintf("scenario %s: plain run exit=%d signal=%s stderr=%.300s", s.Name, plain.Exit, plain.Signal, plain.Stderr)
+	if plain.TimedOut {
+		res.Broken = fmt.Sprintf("scenario %s: plain run timed out", s.Name)
 		return nil, nil, false
 	}
+	if plain.Exit < 0 || plain.Exit > 1 {
+		st.implViolation(s, "C05/complete-run/abnormal-exit", "the undisturbed run ends normally",
+			fmt.Sprintf("`pkglint %s`: exit=%d signal=%s stderr=%.300s", strings.Join(s.Args, " "), plain.Exit, plain.Signal, plain.Stderr))
+		return nil, nil, false
+	}
+	st.streamJudge(s, "complete-run", -1, "", plain.Stdout, plain.Stderr, fmt.Sprintf("`pkglint %s`", strings.Join(s.Args, " ")))
 	run := c05Strace(ctx, s, nil, "", "", 0)
+	if run.TimedOut {
+		res.Broken = fmt.Sprintf("scenario %s: run under strace timed out", s.Name)
+		return nil, nil, false
+	}
 	if run.Exit != plain.Exit || run.Stdout != plain.Stdout || len(c05DiffFiles(plainAfter, run.After)) > 0 {
-		res.Broken = fmt.Sprintf("scenario %s: the run under strace differs from the plain run (exit %d/%d, tree diff %v)", s.Name, run.Exit, plain.Exit, c05DiffFiles(plainAfter, run.After))
+		st.implViolation(s, "C05/correspondence/nondeterministic-run", "two undisturbed runs on the same tree (one of them under strace) behave alike",
+			fmt.Sprintf("exit %d/%d, tree diff %v", run.Exit, plain.Exit, c05DiffFiles(plainAfter, run.After)))
 		return nil, nil, false
 	}
 	if len(run.Trace.Unparsed) > 0 {
@@ -1268,7 +1322,7 @@ func (st *c05State) baseline(s *c05Scenario) (*c05Run, []c05Action, bool) {
 		if s.Expect != nil {
 			why += "; " + s.Expect(s, prog, run.Stdout)
 		}
-		res.Broken = fmt.Sprintf("scenario %s (%s): %s", s.Name, strings.Join(s.Args, " "), why)
+		st.implViolation(s, "C05/coverage/"+s.Name, "coverage floor of scenario "+s.Name, fmt.Sprintf("`pkglint %s`: %s", strings.Join(s.Args, " "), why))
 		return nil, nil, false
 	}
 	for _, want := range append([]string{s.ExpectErr}, s.ExpectErrs...) {
@@ -1341,7 +1395,13 @@ func (st *c05State) baseline(s *c05Scenario) (*c05Run, []c05Action, bool) {
 	progT := c05ProgTokens(prog)
 	// the model's run from the same tree without any fault: system calls with their
 	// results (the only error it can meet is EEXIST at the exclusive open)
-	nofault, err := c05Oracle1(ctx, "fault / "+init+" / "+progT+" / -1 0 EIO")
+	nofaultReq := "fault / " + init + " / " + progT + " / -1 0 EIO"
+	if s.Links {
+		// the link-aware model: Model.FsLinks.lrun from the same tree (links carry the entry they refer to)
+		nofaultReq = "lfault / " + c05LinkInitTokens(s.Old, st.umask) + " / " + c05LinkProgTokens(s, prog) + " / N"
+		res.Count("link_model_runs", 1)
+	}
+	nofault, err := c05Oracle1(ctx, nofaultReq)
 	if err != nil {
 		st.broken(err.Error())
 		return nil, nil, false
@@ -1389,13 +1449,17 @@ func (st *c05State) baseline(s *c05Scenario) (*c05Run, []c05Action, bool) {
 		res.Count("trace_equals_model", 1)
 	}
 	// final state of the model = final tree
-	if fa, err := c05Oracle1(ctx, "fault / "+init+" / "+progT+" / -1 0 EIO"); err != nil {
+	if fa, err := c05Oracle1(ctx, nofaultReq); err != nil {
 		st.broken(err.Error())
 		return nil, nil, false
 	} else if corrOK {
 		parts := strings.Split(fa, " / ")
 		fin, ok := c05ParseListing(parts[len(parts)-1])
-		if !ok || len(c05DiffFiles(fin, run.After)) > 0 {
+		after := run.After
+		if s.Links {
+			after = c05CanonLinks(after)
+		}
+		if !ok || len(c05DiffFiles(fin, after)) > 0 {
 			rep := st.replayMap(s, "trace", -1, "")
 			rep["broken"] = "correspondence: final tree = final state of Model.FsProto.run"
 			res.AddViolation(Violation{Key: "C05/correspondence/final-state/" + s.Name, FoundInput: false,
@@ -1719,9 +1783,13 @@ func (st *c05State) fault(s *c05Scenario, base *c05Run, prog []c05Action, k int,
 		return true
 	}
 	// 2. the failure is reported on stderr
-	if !strings.Contains(run.Stderr, "ERROR: ") {
+	if !c05HasSaveError(run.Stderr) {
+		rep["stdout"] = c05Short(run.Stdout)
 		res.AddViolation(Violation{Key: keyp + "no-error-line", FoundInput: true, Size: 10 * hit, Replay: rep,
-			What: fmt.Sprintf("%s: nothing on stderr (%q)", where, c05Short(run.Stderr))})
+			What: fmt.Sprintf("%s: no ERROR line about the failure on stderr (stderr %q, stdout %q)", where, c05Short(run.Stderr), c05Short(run.Stdout))})
+		return true
+	}
+	if st.streamJudge(s, "fault", hit, errno, run.Stdout, run.Stderr, where) {
 		return true
 	}
 	// 3. the failed save leaves the file untouched: it holds what it held before
@@ -1793,6 +1861,13 @@ func (st *c05State) fault(s *c05Scenario, base *c05Run, prog []c05Action, k int,
 		}
 		wdata = data
 		req = fmt.Sprintf("fault / F %s %s %d U %d / S %s %s / %d %d %s", hx(failed), hx(fOld.Data), fOld.Mode, st.umask, hx(failed), hx(data), local, short, errno)
+		if s.Links && s.Old[failed].Kind == "L" && !c05RenamedBefore(base.Ops[:start], failed) {
+			// the failed file is (still) a symbolic link: the link-aware model of this save, the
+			// link and the file it refers to in the initial state
+			tgt := c05LinkKey(failed, s.Old[failed].Data)
+			req = fmt.Sprintf("lfault / L %s %s 511 F %s %s %d U %d / S %s %s / F %d %d %s", hx(failed), hx(tgt), hx(tgt), hx(fOld.Data), fOld.Mode, st.umask, hx(failed), hx(data), local, short, errno)
+			res.Count("link_model_fault_runs", 1)
+		}
 	}
 	a, err := c05Oracle1(ctx, req)
 	if err != nil {
@@ -1933,8 +2008,24 @@ func (st *c05State) shortWrite(s *c05Scenario, prog []c05Action, limit int) {
 			What: fmt.Sprintf("scenario %s with RLIMIT_FSIZE=%d (short write, then SIGXFSZ): %s is neither old nor new; observed %s", s.Name, limit, bad, c05OpsString(run.Ops))})
 		return
 	}
-	st.foreignCheck(s, prog, run.After, false, "short-write", st.replayMap(s, "short", limit, ""), limit,
-		fmt.Sprintf("with RLIMIT_FSIZE=%d (short write, then SIGXFSZ)", limit))
+	if st.foreignCheck(s, prog, run.After, false, "short-write", st.replayMap(s, "short", limit, ""), limit,
+		fmt.Sprintf("with RLIMIT_FSIZE=%d (short write, then SIGXFSZ)", limit)) {
+		return
+	}
+	if run.Signal == "" && !run.TimedOut {
+		// the Go runtime ignores SIGXFSZ: the write fails with EFBIG and the run goes on --
+		// a real I/O error without any injection.  It must be reported on stderr, not on stdout.
+		res.Count("short_write_runs_survived_EFBIG", 1)
+		where := fmt.Sprintf("scenario %s, pkglint %s with RLIMIT_FSIZE=%d (write fails with EFBIG)", s.Name, strings.Join(s.Args, " "), limit)
+		if !c05HasSaveError(run.Stderr) {
+			rep := st.replayMap(s, "short", limit, "")
+			rep["stderr"], rep["stdout"] = c05Short(run.Stderr), c05Short(run.Stdout)
+			res.AddViolation(Violation{Key: "C05/short-write/no-error-line", FoundInput: true, Size: limit, Replay: rep,
+				What: fmt.Sprintf("%s: no ERROR line about the failure on stderr (stderr %q, stdout %q)", where, c05Short(run.Stderr), c05Short(run.Stdout))})
+			return
+		}
+		st.streamJudge(s, "short-write", limit, "", run.Stdout, run.Stderr, where)
+	}
 }
 
 func c05Umask() int {
@@ -1975,7 +2066,7 @@ func (st *c05State) scenario(name string, variant int, thorough bool, rng *Rng) 
 		} else {
 			off := rng.Intn(4)
 			jobs = append(jobs, job{k, errnos[(k+off)%4]})
-			if s.Blocked == nil { // the foreign-tmp scenarios repeat a base scenario: one errno per call there
+			if s.Blocked == nil && !s.Links { // the foreign-tmp and link scenarios repeat a base scenario: one errno per call there
 				jobs = append(jobs, job{k, errnos[(k+off+1+rng.Intn(3))%4]})
 			}
 		}
@@ -2023,7 +2114,10 @@ func runC05(ctx *Ctx) *Result {
 		variants = 12
 	}
 	for v := 0; v < variants; v++ {
-		for _, name := range append(append([]string{}, c05Scenarios...), c05ForeignScenarios(ctx.Seed, v, ctx.Tier == "thorough")...) {
+		st.c05Streams(v, ctx.Tier == "thorough")
+		names := append(append([]string{}, c05Scenarios...), c05ForeignScenarios(ctx.Seed, v, ctx.Tier == "thorough")...)
+		names = append(names, c05LinkScenarios(ctx.Seed, v, ctx.Tier == "thorough")...)
+		for _, name := range names {
 			st.scenario(name, v, ctx.Tier == "thorough", rng)
 			if res.Broken != "" {
 				return res
@@ -2038,6 +2132,9 @@ func runC05(ctx *Ctx) *Result {
 			pick = append(pick, st.cross[i])
 		}
 		c05CrossCheckExtraction(ctx, res, st.umask, pick)
+	}
+	if res.Broken == "" {
+		c05LinkCrossCheck(ctx, res, st.umask, st.lcross, st.elines)
 	}
 	dist := 0
 	for k, v := range res.Distribution {
@@ -2090,6 +2187,19 @@ func replayC05(ctx *Ctx, rep map[string]any) *Result {
 	mode, _ := rep["mode"].(string)
 	if name == "" {
 		res.Broken = "replay file names no scenario"
+		return res
+	}
+	if name == "streams" {
+		var opts []string
+		if l, ok := rep["opts"].([]any); ok {
+			for _, x := range l {
+				if sx, ok := x.(string); ok {
+					opts = append(opts, sx)
+				}
+			}
+		}
+		fault, _ := rep["fault"].(string)
+		st.streamsJob("streams-replay", opts, fault)
 		return res
 	}
 	s := c05Build(name, variant, ctx.Seed, filepath.Join(ctx.Work, "c05", "base-replay", "pkgsrc"))
